@@ -16,7 +16,8 @@ PROP = "C03"
 RULE = ("case = (history of 1-12 events from {worker exit with status 0/1/3/4/255 or by signal KILL/TERM/SEGV/ABRT, TTIN, "
         "TTOU, HUP with a new worker count}, inter-event gaps {0, <1 tick, several ticks}, initial workers 1-4, timeout in "
         "{0,2,30}, worker policies (dies right after fork, ignores TERM, slow TERM), SIGCHLD schedule = tuple of injection "
-        "points at which deaths happened); distinct = (history sha1, delivery-point tuple); non-trivial = >= 1 event")
+        "points at which deaths happened), plus a directed class (a fresh worker dies 0-4 injection points after fork() returned, "
+        "timeout > 0) and live scenarios against real masters; distinct = (history sha1, delivery-point tuple); non-trivial = >= 1 event")
 
 TERM = int(signal.SIGTERM)
 
@@ -86,6 +87,51 @@ def gen_scenario(rng, small=False):
             "max_ticks": 300 + int(40 * t)}
 
 
+PHANTOM_GRACE = 3      # loop ticks (1 s each) the timeout scan is given beyond `timeout` to drop a pid that no longer exists
+
+
+def gen_early_death_scenario(rng):
+    """Directed class: a freshly forked worker dies at once (any ordinary status or signal - not 3/4) and the death is placed
+    on each side of the master's `WORKERS[pid] = worker` line by the schedule; a few ordinary events around it; timeout > 0, so
+    the master has the means (heartbeat scan) to find out; quiescence is judged more than timeout + PHANTOM_GRACE after the
+    last event."""
+    workers = rng.randint(1, 4)
+    timeout = rng.choice([2, 2, 30])
+    graceful = rng.choice([1, 3])
+    events = []
+    t = rng.choice([0.0, 0.5, 1.5])
+    for _ in range(rng.randint(0, 3)):
+        k = rng.random()
+        if k < 0.4:
+            ev = {"type": "worker_exit", "which": rng.randint(0, 5)}
+            if rng.random() < 0.5:
+                ev["signal"] = rng.choice([9, 15, 11, 6])
+            else:
+                ev["status"] = rng.choice([0, 1, 255])
+        elif k < 0.6:
+            ev = {"type": "signal", "sig": "TTIN"}
+        elif k < 0.8:
+            ev = {"type": "signal", "sig": "TTOU"}
+        else:
+            ev = {"type": "signal", "sig": "HUP", "new_workers": rng.randint(1, 4)}
+        t += rng.choice([0.0, 0.3, 0.7, 2.5, 4.0])
+        ev["at"] = round(t, 2)
+        events.append(ev)
+    default_policy = {"term_delay": rng.choice([0.0, 0.3, 1.5])}
+    pol = {"die_after": 0.0}
+    if rng.random() < 0.5:
+        pol["die_signal"] = rng.choice([9, 11, 6, 15])
+    else:
+        pol["die_status"] = rng.choice([0, 1, 255])
+    # spawn indexes below `workers` are always reached (initial pool); the others when the history forks that often
+    spawn_policy = {str(rng.randint(0, workers + (2 if events else 0))): pol}
+    W = timeout + graceful + 6 + default_policy["term_delay"]
+    events.append({"type": "end", "at": round(t + W, 2)})
+    return {"workers": workers, "timeout": timeout, "graceful_timeout": graceful, "events": events,
+            "default_policy": default_policy, "spawn_policy": spawn_policy, "final": "none", "flood": False,
+            "reuse_port": False, "max_ticks": 300 + int(40 * t), "directed": "early-death"}
+
+
 class Monitor:
     """Reference pool model + invariants, fed by kernel hooks."""
 
@@ -96,6 +142,7 @@ class Monitor:
         self.violations = []
         self.nhandled_seen = 0
         self.term_kills_judged = 0
+        self.stale_entries_judged = 0
 
     def sync_targets(self, k):
         # delivered: from the kernel's log of signals handed to the master's handler
@@ -176,6 +223,24 @@ class Monitor:
                           "a worker exit with status 3/4 was reaped at +%.1f, the master still runs at +%.1f" % (
                               k.boot_failure_reaped_at - k.t0, k.now - k.t0)))
                 return v
+            # a tracked pid that no longer exists (reaped): the master has one means to find out, the heartbeat scan
+            # (murder_workers -> kill -> ESRCH), or a TERM from pool management answered ESRCH.  With timeout > 0 such an entry
+            # must be gone once `timeout` plus a few loop ticks have passed since the pid ceased to exist.
+            if sc["timeout"]:
+                for pr in k.procs.values():
+                    if pr.state != "reaped" or k.now - pr.reaped_at <= sc["timeout"] + PHANTOM_GRACE:
+                        continue
+                    if pr.tracked_at_reap is False:
+                        self.stale_entries_judged += 1      # reaped while unrecorded: the master went on to record it
+                    if pr.pid in k.tracked:
+                        kills = [(round(e[0] - k.t0, 2), e[3]) for e in k.log if e[1] == "kill" and e[2] == pr.pid and e[4] == "reaped"]
+                        v.append(("phantom-worker/not-dropped-by-timeout-scan",
+                                  "pid %d was reaped at +%.1f (%s) and is still tracked at +%.1f, timeout=%s: "
+                                  "%d kill() calls for it were answered ESRCH %s; kernel live=%s master tracks=%s target %d" % (
+                                      pr.pid, pr.reaped_at - k.t0,
+                                      "before the master recorded it" if pr.tracked_at_reap is False else "while recorded",
+                                      k.now - k.t0, sc["timeout"], len(kills), kills[:4],
+                                      sorted(p.pid for p in run), sorted(k.tracked), self.target_delivered)))
             target = self.target_delivered
             per_instant = {}
             for ev in sc["events"]:
@@ -302,6 +367,17 @@ def run_one(run, e3, sc, schedule, sched_desc):
         run.count("boot_failure_under_reuse_port")
     if any(e[1] == "term_lost_during_boot" for e in k.log):
         run.count("term_lost_during_boot_histories")
+    early = [p for p in k.procs.values() if p.tracked_at_reap is False]
+    if early:
+        run.count("reaped_before_recorded", len(early))
+        epids = set(p.pid for p in early)
+        esrch = [e for e in k.log if e[1] == "kill" and e[4] == "reaped" and e[2] in epids]
+        if any(e[3] == int(signal.SIGABRT) for e in esrch):
+            run.count("stale_entry_met_by_timeout_scan")
+        if any(e[3] == TERM for e in esrch):
+            run.count("stale_entry_met_by_pool_management_term")
+    if mon.stale_entries_judged:
+        run.count("stale_entries_judged_after_timeout", mon.stale_entries_judged)
     return v, k
 
 
@@ -349,6 +425,19 @@ def shard(sh):
                 run.count("enumerated_first_delivery_points")
                 for mech, summary in v:
                     run.violation(mech, summary, {"scenario": sc, "schedule": {"kind": "index", "k": [kpt]}})
+        # directed: a fresh worker dies at once, the death placed at each point from fork() returning up to just after the
+        # master recorded the pid
+        rng2 = rng_for(sh["seed"], "c03", "early-death", sh.get("sub", 0))
+        for i in range(sh.get("early_death", 0)):
+            if run.enough():
+                break
+            sc = gen_early_death_scenario(rng2)
+            for off in range(5):
+                v, k = run_one(run, e3, sc, e3.AfterForkSchedule(off), "after-fork+%d" % off)
+                run.case(sig_of(sc, k.deliveries))
+                run.count("early_death_histories")
+                for mech, summary in v:
+                    run.violation(mech, summary, {"scenario": sc, "schedule": {"kind": "afterfork", "offset": off}})
     return run
 
 
@@ -357,16 +446,20 @@ def main(tier, seed):
     run.require("histories", "quiescence_checks", "sigchld_handler_calls", "death_at_fork_return", "death_at_kill_return",
                 "death_between_source_lines", "death_while_master_sleeps", "term_kills_judged", "boot_failures_reaped",
                 "stop_signal_histories", "reload_histories", "enumerated_first_delivery_points", "signal_flood_histories", "boot_failure_under_reuse_port",
-                "term_lost_during_boot_histories")
+                "term_lost_during_boot_histories", "early_death_histories", "reaped_before_recorded",
+                "stale_entry_met_by_timeout_scan", "stale_entries_judged_after_timeout")
     q = tier == "quick"
     shards = [{"kind": "sample", "n": 60 if q else 1500, "schedules": 20, "sub": i, "seed": seed, "tier": tier}
               for i in range(16 if q else 32)]
-    shards += [{"kind": "enum", "n": 12 if q else 80, "sub": i, "seed": seed, "tier": tier} for i in range(16 if q else 32)]
+    shards += [{"kind": "enum", "n": 12 if q else 80, "early_death": 8 if q else 60, "sub": i, "seed": seed, "tier": tier}
+               for i in range(16 if q else 32)]
     run.assumptions = [
         "simulated kernel: fork returns on the parent side only; SIGCHLD handler runs in the main thread at the return of a simulated "
         "system call or between source lines of arbiter.py, never re-entrantly (CPython's documented delivery model)",
         "convergence is judged as bounded progress: W = timeout + graceful_timeout + 6 virtual seconds after the last event",
         "workers that ignore TERM are not counted as live-and-serving once they have been asked to stop",
+        "a recorded pid that no longer exists must be dropped within timeout + %d loop ticks of its disappearance when timeout > 0 (the "
+        "younger ones, and all of them with timeout = 0, fall under the recorded fork/bookkeeping finding)" % PHANTOM_GRACE,
         "a separate flood class delivers 6-9 signals at one instant: there the model target follows the signals the arbiter logged as handled",
         "live validation of the simulation against a real master: see the live sub-tier (traces_validated_against_impl)",
     ]
@@ -399,6 +492,8 @@ def replay(path):
         sched = e3.IndexSchedule(s["k"])
     elif s["kind"] == "random":
         sched = e3.RandomSchedule(rng_for(*s["parts"]), s["p"])
+    elif s["kind"] == "afterfork":
+        sched = e3.AfterForkSchedule(s["offset"])
     else:
         sched = e3.IndexSchedule(s["points"])
     v, k = run_one(run, e3, c["scenario"], sched, "replay")
